@@ -16,9 +16,16 @@ Native (bounded) side only.  The oracles are contracts on the *real* `LLMRails.g
                               value of their declared shape for every string / list of lines (no exception).
 
 Modes (Colang 1.0): standard three-step pipeline, single_call, general (no dialog rails), passthrough (with and without
-dialog rails), a flow with `$name = ...` (generate_value + predefined message rendering the generated value), multi-step
-generation; Colang 2.x: `llm continuation` (user intent detection, flow continuation) and `... ` value generation.
-Conversations have two turns; the hostile output is put at every LLM call position of either turn."""
+dialog rails), a flow with `$name = ...` (generate_value + predefined message rendering the generated value), self-check input /
+output rails with rail exceptions enabled (the LLM calls of the rails are call positions too), multi-step generation
+(the next-step call, whose output is parsed and started as a flow, has its own record); Colang 2.x: `llm continuation`
+(user intent detection, flow continuation) and `$v = ...` value generation (value uttered directly / interpolated into a string).
+Conversations have two turns; the hostile output is put at every LLM call position of either turn.  The LLM is the
+repository's tests/utils.py::FakeLLM, scripted per turn (a benign filler follows the script, so no call ever fails).
+
+Known to fail on the anchored tree (kept, reported): multi-step next-step outputs that are not a well-formed flow body make
+generate() raise or hang; Colang 2.x generated values that are not JSON-serialisable make generate() raise; Colang 2.x string
+interpolation re-interprets `{{`, `}}`, `$name` inside an interpolated LLM value."""
 from pyvc.api import *
 
 PROP = "C17"
@@ -27,6 +34,7 @@ GEN2 = "nemoguardrails/actions/v2_x/generation.py"
 UTILS = "nemoguardrails/actions/llm/utils.py"
 PARSERS = "nemoguardrails/llm/output_parsers.py"
 RUNTIME1 = "nemoguardrails/colang/v1_0/runtime/runtime.py"
+EVAL2 = "nemoguardrails/colang/v2_x/runtime/eval.py"
 
 SECRET = "S3CR3T-9f1e"
 TURN_TIMEOUT_S = 8.0
@@ -189,6 +197,28 @@ flow main
 '''
 V2_MODES = {"v2": V2_COLANG, "v2_value": V2_VALUE_COLANG, "v2_value_interpolated": V2_VALUE_INTERPOLATED_COLANG}
 
+SELF_CHECK_YAML = YAML + """
+enable_rails_exceptions: True
+rails:
+  input:
+    flows:
+      - self check input
+  output:
+    flows:
+      - self check output
+prompts:
+  - task: self_check_input
+    content: |
+      Should the user message below be blocked?
+      User message: "{{ user_input }}"
+      Answer (Yes or No):
+  - task: self_check_output
+    content: |
+      Should the bot message below be blocked?
+      Bot message: "{{ bot_response }}"
+      Answer (Yes or No):
+"""
+
 INTENT_OK, NEXT_OK, MSG_OK = "  ask question", "bot respond to question", "  \"Sure thing.\""
 
 # mode -> yaml, colang, well-formed LLM outputs of ONE turn, kind of each call, wrapper of a message text per call kind
@@ -203,6 +233,8 @@ MODES = {
     "passthrough_dialog": dict(yaml=YAML + "passthrough: True\n", colang=COLANG, turn=[INTENT_OK, NEXT_OK, "Sure thing."],
                                kinds=["intent", "next", "message"], context=False, file=GEN),
     "value": dict(yaml=YAML, colang=VALUE_COLANG, turn=["  give name", "\"Ann\""], kinds=["intent", "value"], context=True, file=GEN),
+    "self_check": dict(yaml=SELF_CHECK_YAML, colang=COLANG, turn=["No", INTENT_OK, NEXT_OK, MSG_OK, "No"],
+                       kinds=["input_check", "intent", "next", "message", "output_check"], context=True, file=GEN),
     "multi_step": dict(yaml=YAML + "enable_multi_step_generation: True\n", colang=COLANG, turn=[INTENT_OK, NEXT_OK, MSG_OK],
                        kinds=["intent", "next", "message"], context=True, file=GEN),
 }
@@ -214,6 +246,8 @@ def _wrap(mode, text):
     """the well-formed LLM output(s) of one turn of `mode` whose message text is `text`; returns (outputs, expected content)"""
     if mode in ("standard", "multi_step"):
         return [INTENT_OK, NEXT_OK, "  \"%s\"" % text], text
+    if mode == "self_check":
+        return ["No", INTENT_OK, NEXT_OK, "  \"%s\"" % text, "No"], text
     if mode == "single_call":
         return ["  ask question\nbot respond to question\n  \"%s\"" % text], text
     if mode in ("general", "passthrough"):
@@ -430,10 +464,10 @@ def _outcome_class(outcome):
 
 
 class _Rec:
-    """one record of the report; keeps at most 2 failures per (clause, outcome class) and 8 in all"""
+    """one record of the report; keeps at most 2 failures per (clause, outcome class) and `cap` in all"""
 
-    def __init__(self, function, file, bound):
-        self.function, self.file, self.bound = function, file, bound
+    def __init__(self, function, file, bound, cap=6):
+        self.function, self.file, self.bound, self.cap = function, file, bound, cap
         self.n = 0
         self.seen = set()
         self.failing = []
@@ -448,7 +482,7 @@ class _Rec:
         self.nfail += 1
         k = (clause, _outcome_class(outcome))
         self.classes[k] = self.classes.get(k, 0) + 1
-        if self.classes[k] <= 2 and len(self.failing) < 8:
+        if self.classes[k] <= 2 and len(self.failing) < self.cap:
             self.failing.append(_fail(self.function, file or self.file, clause, inputs, outcome))
 
     def record(self):
@@ -528,8 +562,10 @@ def _scripts_with(mode, turn, idx, h):
     return scripts
 
 
-def _skip(mode, kind):
-    """the next-step call of multi-step generation has its own record"""
+def _skip(mode, kind, tier="thorough"):
+    """the next-step call of multi-step generation has its own record; quick tier: see QUICK_KINDS"""
+    if tier != "thorough" and mode in QUICK_KINDS and kind not in QUICK_KINDS[mode]:
+        return True
     return mode == "multi_step" and kind == "next"
 
 
@@ -538,17 +574,19 @@ def _skip(mode, kind):
 # =============================================================================================
 ALWAYS = BLANKS + TEMPLATES[:12]
 QUICK_SIZES = dict(standard=(38, 12), single_call=(70, 24), general=(70, 24), passthrough=(50, 16), passthrough_dialog=(22, 8),
-                   value=(32, 10), multi_step=(24, 8))
+                   value=(32, 10), multi_step=(24, 8), self_check=(16, 6))
+# kinds of LLM call that get a hostile output in the quick tier (None: all); the other calls of these modes run the same code as `standard`
+QUICK_KINDS = dict(self_check=("input_check", "output_check", "message"))
 
 
 def _pick(rng, tier, mode, turn):
     if tier == "thorough":
-        return list(CORPUS)
+        return list(CORPUS) if turn == 0 and mode not in ("self_check", "multi_step") else list(CORE)
     size = QUICK_SIZES[mode][turn]
     if turn == 1:
-        base = BLANKS[:6] + TEMPLATES[:8]
+        base = BLANKS[:6] + TEMPLATES[:8] if size >= 14 else BLANKS[:3] + TEMPLATES[:3]
     else:
-        base = list(ALWAYS)
+        base = list(ALWAYS) if size >= 30 else BLANKS[:5] + TEMPLATES[:6]
     rest = [h for h in CORPUS if h not in base]
     return base + rng.sample(rest, max(0, min(len(rest), size - len(base))))
 
@@ -558,12 +596,13 @@ def _single_position_family(rng, tier, mode):
     spec = MODES[mode]
     first, second = _pick(rng, tier, mode, 0), _pick(rng, tier, mode, 1)
     rec = _Rec("LLMRails.generate[%s: hostile output at one LLM call]" % mode, spec["file"],
-               "mode %s, 2-turn conversation, every LLM call position (%s per turn%s) x hostile corpus (%d strings at first-turn positions, "
+               "mode %s, 2-turn conversation, LLM call positions (%s per turn%s) x hostile corpus (%d strings at first-turn positions, "
                "both turns run; %d at second-turn positions; the full corpus has %d); hard timeout %.0f s per turn" % (
-                   mode, "/".join(spec["kinds"]), "; the next-step call has its own record" if mode == "multi_step" else "",
+                   mode, "/".join(k for k in spec["kinds"] if not _skip(mode, k, tier)),
+                   "; the next-step call has its own record" if mode == "multi_step" else "",
                    len(first), len(second), len(CORPUS), TURN_TIMEOUT_S))
     for turn, idx, kind in _positions(mode):
-        if _skip(mode, kind):
+        if _skip(mode, kind, tier):
             continue
         for h in (first if turn == 0 else second):
             rec.count((turn, idx, h))
@@ -574,15 +613,15 @@ def _single_position_family(rng, tier, mode):
 
 def _mutation_family(rng, tier, mode):
     spec = MODES[mode]
-    per_pos = 40 if tier == "thorough" else 6
-    n_all = 80 if tier == "thorough" else 10
+    per_pos = (20 if mode in ("self_check", "multi_step") else 40) if tier == "thorough" else 3 if mode in QUICK_KINDS else 6
+    n_all = 80 if tier == "thorough" else 5 if mode in QUICK_KINDS else 10
     rec = _Rec("LLMRails.generate[%s: mutated well-formed outputs / all calls hostile]" % mode, spec["file"],
                "mode %s, 2-turn conversation, %d random mutations (insert hostile token, delete, duplicate, truncate, case, quotes, "
                "blank/prefix/suffix, repeat; 1-3 rounds) of the well-formed output at every LLM call position; plus %d conversations with EVERY "
                "call drawn from the hostile corpus%s" % (mode, per_pos, n_all,
                                                        " (next-step call excluded: own record)" if mode == "multi_step" else ""))
     for turn, idx, kind in _positions(mode):
-        if _skip(mode, kind):
+        if _skip(mode, kind, tier):
             continue
         for _ in range(per_pos):
             h = spec["turn"][idx]
@@ -607,10 +646,10 @@ def _literal_family(rng, tier, mode):
                "${...} / %%-format syntax (single line, no surrounding blanks or quotes)%s, all other calls well-formed; context variable "
                "`secret` set where the mode accepts a context message" % (
                    mode, len(PAYLOADS), " (every second one as turn-1 text in the quick tier)"
-                   if tier != "thorough" and mode in ("passthrough_dialog", "multi_step") else ""))
+                   if tier != "thorough" and mode in ("passthrough_dialog", "multi_step", "self_check") else ""))
     k = len(PAYLOADS)
     for i, p1 in enumerate(PAYLOADS):
-        if tier != "thorough" and mode in ("passthrough_dialog", "multi_step") and i % 2:
+        if tier != "thorough" and mode in ("passthrough_dialog", "multi_step", "self_check") and i % 2:
             continue
         p2 = PAYLOADS[(i * 5 + 7) % k]
         s1, e1 = _wrap(mode, p1)
@@ -635,20 +674,20 @@ def _literal_family(rng, tier, mode):
 
 
 # one witness per way the unchanged multi-step path is known to react + ordinary hostile strings
-MULTI_STEP_NEXT_QUICK = ["{{ 7*7 }}", "garbage", "User intent: x", "bot x\nuser y\nbot z", "define flow x\n  user y\n  bot z", "define user x\n  \"y\"",
-                         "goto a", "bot (remove last message)", "do x", "while True\n  bot x", "user express greeting", "bot $secret",
-                         "bot respond to question\n  \"Sure {{ 7*7 }}\"", "\"unterminated", ""]
+MULTI_STEP_NEXT_QUICK = ["", "\"unterminated", "{{ 7*7 }}", "garbage", "User intent: x", "bot x\nuser y\nbot z", "define flow x\n  user y\n  bot z",
+                         "define user x\n  \"y\"", "goto a", "bot (remove last message)", "do x", "while True\n  bot x", "user express greeting",
+                         "bot $secret", "bot respond to question\n  \"Sure {{ 7*7 }}\""]
 
 
 def _multi_step_next_family(rng, tier):
     """multi-step generation: hostile output at the next-step call (the flow body that is parsed and started)"""
     mode = "multi_step"
     hostile = list(CORPUS) if tier == "thorough" else list(MULTI_STEP_NEXT_QUICK)
-    timeout = 1.5 if tier == "quick" else 3.0
+    timeout = 1.0 if tier == "quick" else 2.0
     rec = _Rec("LLMRails.generate[multi_step: hostile output at the next-step call]", RUNTIME1,
                "multi-step generation mode, 2-turn conversation, the next-step LLM call of turn 1 returns one of %d hostile strings%s; other calls "
                "well-formed; hard timeout %.1f s per turn" % (len(hostile), "" if tier == "thorough" else " (one per reaction class of the code; "
-                                                               "the thorough tier uses the whole corpus)", timeout))
+                                                               "the thorough tier uses the whole corpus)", timeout), cap=12)
     for h in hostile:
         rec.count(h)
         _check_conversation(rec, mode, _scripts_with(mode, 0, 1, h), 0, _describe(mode, 0, 1, "next", h), timeout=timeout)
@@ -687,13 +726,15 @@ V2_QUICK = [(0, 0, ""), (0, 0, "{{ 7*7 }}"), (0, 1, ""), (0, 1, "{% for %}"), (0
 
 def _v2_family(rng, tier):
     if tier == "thorough":
-        cases = [(t, i, h) for t in range(2) for i in range(2) for h in CORPUS]
+        rest = [h for h in CORPUS if h not in BLANKS + TEMPLATES + PREFIXES]
+        first = BLANKS + TEMPLATES + PREFIXES[:10] + rng.sample(rest, 10)
+        cases = [(0, i, h) for i in range(2) for h in first] + [(1, i, h) for i in range(2) for h in BLANKS[:4] + TEMPLATES[:6] + PREFIXES[:5]]
     else:
         cases = list(V2_QUICK)
     rec = _Rec("LLMRails.generate[colang 2.x llm continuation: hostile output at one LLM call]", GEN2,
                "Colang 2.x `llm continuation` configuration, 2 turns via generate(state=...), LLM calls of a turn: user intent detection, "
                "flow continuation; %d (turn, call, hostile output) cases%s, other calls well-formed; hard timeout %.0f s per turn" % (
-                   len(cases), "" if tier == "thorough" else " (blanks, template syntax, wrong prefixes; thorough tier: whole corpus at all 4 calls)",
+                   len(cases), "" if tier == "thorough" else " (blanks, template syntax; thorough tier: 55 corpus strings at the calls of turn 1, 15 at those of turn 2)",
                    TURN_TIMEOUT_S))
     users = ["what is the thing", "and the other thing"]
     for t, i, h in cases:
@@ -713,8 +754,9 @@ def _v2_value_family(rng, tier, mode):
     how = {"v2_value": "UtteranceBotAction(script=$v)", "v2_value_interpolated": "UtteranceBotAction(script=\"Thanks {$v}!\")"}[mode]
     fmt = "%s" if mode == "v2_value" else "Thanks %s!"
     payloads = PAYLOADS if tier == "thorough" else PAYLOADS[:14] if mode == "v2_value" else PAYLOADS[:8]
-    hostile = list(CORPUS) if tier == "thorough" else (BLANKS[:3] + TEMPLATES[:3] + LITERALS[5:9] + QUOTES[:2] if mode == "v2_value" else [])
-    rec = _Rec("LLMRails.generate[colang 2.x value generation `$v = ...` then %s]" % how, GEN2,
+    hostile = (list(CORPUS) if mode == "v2_value" else []) if tier == "thorough" else (BLANKS[:3] + TEMPLATES[:3] + ["...", "b'x'", "{1, 2}", "\"Ann\";", "__import__('os').system('true')"] + QUOTES[:2]
+                                                      if mode == "v2_value" else [])
+    rec = _Rec("LLMRails.generate[colang 2.x value generation `$v = ...` then %s]" % how, GEN2 if mode == "v2_value" else EVAL2,
                "Colang 2.x flow `$v = ...\"instruction\"` then %s, 2 turns: %d payload strings with template / variable syntax returned "
                "by the LLM as Python string literals (content must be the payload%s) and %d hostile outputs (well-formed message "
                "only)" % (how, len(payloads), "" if mode == "v2_value" else " inside 'Thanks ...!'", len(hostile)))
@@ -781,8 +823,8 @@ def _helper_checks(rng, tier):
     str_specs = [
         (U, "get_first_nonempty_line", UTILS, "result is None (iff no non-empty line) or the first non-empty stripped line of s",
          lambda s, r: (r is None and not any(lines_of(s))) or (isinstance(r, str) and r != "" and r == [x for x in lines_of(s) if x][0])),
-        (U, "strip_quotes", UTILS, "result is a str, a contiguous part of s, and s itself when s does not start with a double quote",
-         lambda s, r: isinstance(r, str) and r in s and (r == s or s.startswith("\""))),
+        (U, "strip_quotes", UTILS, "s without its leading double quote and the matching trailing one (s itself when it does not start with one)",
+         lambda s, r: r == (s if not s.startswith("\"") else s[1:-1] if s.endswith("\"") else s[1:])),
         (U, "get_multiline_response", UTILS, "result is a str whose lines are stripped non-empty lines of s",
          lambda s, r: isinstance(r, str) and (r == "" or all(x != "" and x in lines_of(s) for x in r.split("\n")))),
         (U, "escape_flow_name", UTILS, "result is a str", lambda s, r: isinstance(r, str)),
